@@ -12,11 +12,15 @@ pub struct Rw {
     pub counts: BTreeMap<&'static str, usize>,
     pub err: Option<String>,
     pub rename_self: bool,
+    /// inside a ComplexField / RealField body: method name -> emitted (prefixed) name of the field-trait method
+    pub field_methods: std::collections::HashMap<String, String>,
+    /// by-value parameters of the number type itself (receivers for which the field-trait method is found first)
+    pub field_recv: HashSet<String>,
 }
 
 impl Rw {
     pub fn new(ints: HashSet<String>) -> Self {
-        Rw { dims: HashSet::new(), ints, counts: BTreeMap::new(), err: None, rename_self: false }
+        Rw { dims: HashSet::new(), ints, counts: BTreeMap::new(), err: None, rename_self: false, field_methods: Default::default(), field_recv: HashSet::new() }
     }
     fn bump(&mut self, k: &'static str) {
         *self.counts.entry(k).or_insert(0) += 1;
@@ -71,6 +75,11 @@ fn strip_known_generics(path: &mut syn::Path, rw: &mut Rw) {
 impl VisitMut for Rw {
     fn visit_type_mut(&mut self, t: &mut Type) {
         if let Type::Path(p) = t {
+            if p.qself.is_none() && p.path.segments.len() == 2 && p.path.segments[0].ident == "Self" && p.path.segments[1].ident == "RealField" {
+                *t = parse_quote!(Self);
+                self.bump("R2_RealField_is_Self");
+                return;
+            }
             if let Some(q) = &mut p.qself {
                 self.visit_type_mut(&mut q.ty);
             }
@@ -189,6 +198,16 @@ impl VisitMut for Rw {
                 }
             }
         }
+        // R2: by-value method calls inside nalgebra field-trait bodies resolve to the field-trait method
+        if let Expr::MethodCall(m) = e {
+            if let Some(nn) = self.field_methods.get(&m.method.to_string()).cloned() {
+                let by_value_self = matches!(&*m.receiver, Expr::Path(p) if p.path.get_ident().map(|i| self.field_recv.contains(&i.to_string())).unwrap_or(false));
+                if by_value_self {
+                    m.method = syn::Ident::new(&nn, m.method.span());
+                    self.bump("R2_field_method_resolution");
+                }
+            }
+        }
         // children first
         visit_mut::visit_expr_mut(self, e);
         match e {
@@ -236,6 +255,17 @@ impl VisitMut for Rw {
     }
 
     fn visit_expr_path_mut(&mut self, p: &mut syn::ExprPath) {
+        // <T as FloatConst>::PI  ->  Sc::PI
+        if let Some(q) = &p.qself {
+            let tn = crate::db::type_last_ident(&q.ty).map(|x| x.0).unwrap_or_default();
+            if (tn == "T" || tn == "F") && p.path.segments.len() == 2 && p.path.segments[0].ident == "FloatConst" {
+                let c = p.path.segments[1].ident.clone();
+                let t = syn::Ident::new(if tn == "T" { "Sc" } else { "Fl" }, c.span());
+                *p = parse_quote!(#t::#c);
+                self.bump("R1_qualified_const");
+                return;
+            }
+        }
         if let Some(q) = &mut p.qself {
             self.visit_type_mut(&mut q.ty);
         }
